@@ -323,6 +323,12 @@ func (c *vfC15RCtx) resolve(ci int, k string) {
 		hi = e.dHi + 10
 	}
 	if now >= hi {
+		// beyond the window the key must be gone: confirmed at once, so that a key
+		// that outlives its deadline is reported here and not through a later coincidence
+		r := c.text(ci, "EXISTS", k)
+		if r == nil {
+			return
+		}
 		c.ghost[k] = e
 		delete(c.m, k)
 		c.tomb[k] = "expired"
@@ -330,7 +336,11 @@ func (c *vfC15RCtx) resolve(ci int, k string) {
 			c.tomb[k] = "expired-px"
 		}
 		c.part.Add("redis_expiries_by_deadline", 1)
-		c.note("model: %q gone by deadline (window [%d,%d) now %d)", k, e.dLo, hi, now)
+		c.note("@%d EXISTS %q -> %s (must be gone by its deadline: window [%d,%d) now %d)", ci, k, r.String(), e.dLo, hi, now)
+		if !(r.Kind == ':' && r.Int == 0) {
+			c.violate("expiry", "EXISTS:"+c.class(k), "EXISTS %q answered %s at tick %d although the key's expiry window [%d,%d) has passed", k, r.String(), now, e.dLo, hi)
+			c.resync(ci, k)
+		}
 		return
 	}
 	r := c.text(ci, "EXISTS", k)
